@@ -27,6 +27,10 @@ func (s *spyWriter) Write(b []byte) (int, error) {
 	*s.events = append(*s.events, T("uw", X(string(b)), I(n)))
 	return n, err
 }
+
+// WriteString makes the spy an io.StringWriter, as net/http's own response writer is.
+func (s *spyWriter) WriteString(str string) (int, error) { return s.Write([]byte(str)) }
+
 func (s *spyWriter) Flush() { *s.events = append(*s.events, T("ufl")) }
 
 // hookPanic is the value a scripted panicking before function panics with.
@@ -45,7 +49,7 @@ func genC13(rng *rand.Rand, n int, tier string, emit func(*Sx)) {
 	}
 	if tier == "thorough" {
 		// every sequence of length <= 5 over a fixed op alphabet, for HEAD and GET
-		alpha := []*Sx{T("wh", I(404)), T("w", X("ab"), I(2)), T("w", X("abc"), I(1)), T("fl"), T("bf", I(1)), T("bfp", I(2)), T("st"), T("sz"), T("wr")}
+		alpha := []*Sx{T("wh", I(404)), T("w", X("ab"), I(2)), T("w", X("abc"), I(1)), T("ws", X("ab"), I(2)), T("fl"), T("bf", I(1)), T("bfp", I(2)), T("st"), T("sz"), T("wr")}
 		var rec func(prefix []*Sx, d int)
 		rec = func(prefix []*Sx, d int) {
 			for _, m := range []string{"GET", "HEAD"} {
@@ -80,7 +84,11 @@ func genC13(rng *rand.Rand, n int, tier string, emit func(*Sx)) {
 				if rng.Intn(4) == 0 {
 					acc = rng.Intn(len(b) + 1)
 				}
-				ops = append(ops, T("w", X(string(b)), I(acc)))
+				if rng.Intn(4) == 0 { // through io.WriteString (uses a WriteString method when the writer has one)
+					ops = append(ops, T("ws", X(string(b)), I(acc)))
+				} else {
+					ops = append(ops, T("w", X(string(b)), I(acc)))
+				}
 			case r < 55:
 				c := codes[rng.Intn(len(codes))]
 				if rng.Intn(3) == 0 {
@@ -125,6 +133,9 @@ func runC13(in *Sx) *Sx {
 			case "w":
 				spy.acc = a[1].Int()
 				_, _ = w.Write([]byte(a[0].Bytes()))
+			case "ws":
+				spy.acc = a[1].Int()
+				_, _ = io.WriteString(w, a[0].Bytes())
 			case "fl":
 				w.Flush()
 			case "bf":
